@@ -28,7 +28,7 @@ func init() {
 	caseGens["C05"] = caseGen{
 		count: func(tier string) int {
 			if tier == "thorough" {
-				return 6000
+				return 3000
 			}
 			return 900
 		},
